@@ -116,6 +116,8 @@ class Wrapper(metaclass=abc.ABCMeta):
             ValueError: If the model outputs are strings.
         """
         try:
+            if np.size(y_prediction) == 1:
+                y_prediction = np.asarray(y_prediction).reshape(-1)[0]
             return {self.default_label: float(y_prediction)}
         except TypeError:  # y_prediction is not a size-1 array or real_valued number
             y_prediction = y_prediction.flatten()
